@@ -12,7 +12,8 @@ LEVEL_TEXT = ("Clause-level static rules for the representation invariant of wra
               "non-reducing private constructor and the value of _n at the exit of every mutating member is in range; every shift "
               "in wrapint.cpp has a 64-bit left operand; binary operators check the widths first and divisions test for zero; "
               "wrapped_interval arithmetic is applied to operands split at the poles, with divisors trimmed of zero; lattice "
-              "operators answer the bottom/top cases correctly. The pole arithmetic itself (overflow tests, Trunc) is NOT decided.")
+              "operators answer the bottom/top cases correctly. The pole arithmetic itself (overflow tests, Trunc) is NOT decided."
+              " The cached modulus of a wrapint is only passed on with the width of the same object; the inclusion test of wrapped intervals is interpreted over the full width-3 model; the wrapped-interval domain runs the linear solver on constraints without an overflow test of the residuals (known finding F92).")
 ASSUMPTIONS = ["operands of binary wrapint operations have equal width (checked at run time by sanity_check_bitwidths)",
                "shift amounts are smaller than the width (as in LLVM, larger shifts are undefined)"]
 
